@@ -9,7 +9,7 @@ def run(chk):
     chk.rule = ("(fabric) three whole networks; shutdown of one (explicit, two concurrent explicit calls, or dropping the last handle) at seeded instants with RPCs in both "
                 "directions (some with long-running handlers or large bodies), an outbound dial to a dead address, concurrent connect calls; checked: completion within the "
                 "idle-wait bound, closed / no peers / weak reference dead, every service clone dropped, subscribers get LostPeer events then end-of-stream, remote peers observe "
-                "the disconnect, every pending or later API call returns, no panic; (real time) runtime teardown with live handles on a multi-thread runtime under a watchdog; "
+                "the disconnect, every pending or later API call returns, no panic; (T) the manager / handler / API events of every run (H4b trace points) are replayed on Shutdown.v by ShutdownTrace.trun: it must accept them, end in MDone with nothing left and agree on LostPeer count and answered calls; (real time) runtime teardown with live handles on a multi-thread runtime under a watchdog, incl. re-binding the address after shutdown with idle-wait bounds of 0-200 ms; "
                 "distinct = scenario; non-trivial = all")
     if not chk.prepare():
         return
